@@ -13,6 +13,7 @@ import (
 
 // collectWrites records locals assigned and heap keys written (directly or via calls) in n.
 func collectWrites(prog *Program, info *types.Info, n ast.Node, vars map[*types.Var]bool, keys map[string]bool, reg *Registry) {
+	handledAddr := map[*ast.UnaryExpr]bool{}
 	var lhs func(e ast.Expr)
 	lhs = func(e ast.Expr) {
 		e = ast.Unparen(e)
@@ -101,8 +102,8 @@ func collectWrites(prog *Program, info *types.Info, n ast.Node, vars map[*types.
 				}
 			}
 		case *ast.UnaryExpr:
-			if x.Op == token.AND {
-				// &x passed somewhere: the callee may write through it (value-result)
+			if x.Op == token.AND && !handledAddr[x] {
+				// &x stored or passed to unknown code: it may be written through later
 				if _, isLit := ast.Unparen(x.X).(*ast.CompositeLit); !isLit {
 					lhs(x.X)
 				}
@@ -119,6 +120,43 @@ func collectWrites(prog *Program, info *types.Info, n ast.Node, vars map[*types.
 				}
 			}
 			callee := calleeOf(info, x)
+			if callee != nil && callee.Pkg() != nil && strings.HasPrefix(callee.Pkg().Path(), modPath) {
+				// &lv arguments: written only if the callee writes locations of that type
+				for _, a := range x.Args {
+					ue, ok := ast.Unparen(a).(*ast.UnaryExpr)
+					if !ok || ue.Op != token.AND {
+						continue
+					}
+					if _, isLit := ast.Unparen(ue.X).(*ast.CompositeLit); isLit {
+						continue
+					}
+					handledAddr[ue] = true
+					pt, ok := typeOf(info, ue).Underlying().(*types.Pointer)
+					if !ok {
+						continue
+					}
+					dk := map[string]bool{}
+					derefKeys(pt.Elem(), dk, reg)
+					if prog.condEdge != nil {
+						lk := map[string]bool{}
+						saveKeys := keys
+						keys = lk
+						lhs(ue.X)
+						keys = saveKeys
+						prog.condEdge(callee.Origin(), dk, lk)
+						continue
+					}
+					hit := false
+					for k := range prog.modSetOf(callee) {
+						if dk[k] {
+							hit = true
+						}
+					}
+					if hit {
+						lhs(ue.X)
+					}
+				}
+			}
 			if callee != nil {
 				for k := range prog.modSetOf(callee) {
 					keys[k] = true
@@ -197,6 +235,11 @@ func (p *Program) computeModSets() {
 	direct := map[*types.Func]map[string]bool{}
 	callees := map[*types.Func][]*types.Func{}
 	viaFuncValue := map[*types.Func]bool{}
+	type condEdgeT struct {
+		caller, callee *types.Func
+		dk, lk         map[string]bool
+	}
+	var condEdges []condEdgeT
 	for _, fi := range p.Funcs {
 		if fi.Obj == nil {
 			continue
@@ -206,6 +249,10 @@ func (p *Program) computeModSets() {
 		// direct writes only: use a shallow program without modsets
 		shallow := &Program{ModSets: map[*types.Func]map[string]bool{}, Pkgs: p.Pkgs}
 		shallow.fvSet = map[string]bool{}
+		caller := fi.Obj
+		shallow.condEdge = func(callee *types.Func, dk, lk map[string]bool) {
+			condEdges = append(condEdges, condEdgeT{caller, callee, dk, lk})
+		}
 		collectWrites(shallow, info, fi.Decl.Body, nil, keys, modsetReg)
 		direct[fi.Obj] = keys
 		ast.Inspect(fi.Decl.Body, func(n ast.Node) bool {
@@ -302,6 +349,17 @@ func (p *Program) computeModSets() {
 		for im, fs := range impls {
 			for _, f := range fs {
 				add(im, p.ModSets[f])
+			}
+		}
+		for _, ce := range condEdges {
+			hit := false
+			for k := range p.ModSets[ce.callee] {
+				if ce.dk[k] {
+					hit = true
+				}
+			}
+			if hit {
+				add(ce.caller, ce.lk)
 			}
 		}
 		fv := map[string]bool{}
